@@ -100,6 +100,12 @@ type rigBackend struct {
 	Fault func(ev *rigEvent) *rigFault
 	// Respond produces the result of an exec; nil = rigDefaultRespond.
 	Respond func(c *rigConn, sql string) (*mysql.Result, error)
+	// Stream scripts a streamed answer to a successful exec: moreRowChunks further chunks of
+	// the same result set have to be fetched with FetchMoreRows (MoreRowsExist() stays true
+	// until the last one was fetched, as DirectConnection does for results > 16 MiB), and
+	// moreResults further result sets follow (MoreResultsExist(), ReadMoreResult, and
+	// ServerMoreResultsExists in the status of every result but the last). nil = nothing streamed.
+	Stream func(c *rigConn, sql string) (moreRowChunks int, moreResults int)
 	// CmdTag is set by the driver before each client command to attribute events.
 	CmdTag int64
 }
@@ -294,6 +300,9 @@ type rigConn struct {
 	collation  mysql.CollationID
 	vars       *mysql.SessionVariables
 	returnTime time.Time
+	// streaming state of the last exec (guarded by the backend lock)
+	moreRows    int
+	moreResults int
 }
 
 // call logs one call and applies the fault script. It returns the fault (possibly nil)
@@ -432,10 +441,23 @@ func (c *rigConn) Execute(sql string, maxRows int) (*mysql.Result, error) {
 	if err != nil {
 		return nil, err
 	}
+	var res *mysql.Result
 	if r := c.pool.b.Respond; r != nil {
-		return r(c, sql)
+		res, err = r(c, sql)
+	} else {
+		res, err = rigDefaultRespond(c, sql)
 	}
-	return rigDefaultRespond(c, sql)
+	b := c.pool.b
+	b.mu.Lock()
+	c.moreRows, c.moreResults = 0, 0
+	if st := b.Stream; st != nil && err == nil && res != nil {
+		c.moreRows, c.moreResults = st(c, sql)
+		if c.moreResults > 0 {
+			res.Status |= mysql.ServerMoreResultsExists
+		}
+	}
+	b.mu.Unlock()
+	return res, err
 }
 func (c *rigConn) ExecuteWithTimeout(sql string, maxRows int, timeout time.Duration) (*mysql.Result, error) {
 	return c.Execute(sql, maxRows)
@@ -494,13 +516,57 @@ func (c *rigConn) WriteSetStatement() error {
 }
 func (c *rigConn) GetConnectionID() int64   { return c.id }
 func (c *rigConn) GetReturnTime() time.Time { return c.returnTime }
-func (c *rigConn) MoreRowsExist() bool      { return false }
-func (c *rigConn) MoreResultsExist() bool   { return false }
-func (c *rigConn) FetchMoreRows(result *mysql.Result, maxRows int) error {
-	return c.call("fetchmore", "", "", nil)
+func (c *rigConn) MoreRowsExist() bool {
+	c.pool.b.mu.Lock()
+	defer c.pool.b.mu.Unlock()
+	return c.moreRows > 0
 }
+func (c *rigConn) MoreResultsExist() bool {
+	c.pool.b.mu.Lock()
+	defer c.pool.b.mu.Unlock()
+	return c.moreResults > 0
+}
+
+// FetchMoreRows delivers the next chunk (one text row "1") of a streamed result set.
+func (c *rigConn) FetchMoreRows(result *mysql.Result, maxRows int) error {
+	fetched := false
+	err := c.call("fetchmore", "", "", func() {
+		if c.moreRows > 0 {
+			c.moreRows--
+			fetched = true
+		}
+	})
+	if err != nil {
+		return err
+	}
+	if fetched && result != nil && result.Resultset != nil {
+		result.RowDatas = append(result.RowDatas, mysql.RowData{1, '1'})
+	}
+	return nil
+}
+
+// ReadMoreResult delivers the next result set of a multi-result answer.
 func (c *rigConn) ReadMoreResult(maxRows int) (*mysql.Result, error) {
-	return nil, c.call("readmore", "", "", nil)
+	more := false
+	var status uint16
+	err := c.call("readmore", "", "", func() {
+		if c.moreResults > 0 {
+			c.moreResults--
+		}
+		more = c.moreResults > 0
+		status = c.status()
+	})
+	if err != nil {
+		return nil, err
+	}
+	rs, err := mysql.BuildResultset(nil, []string{"c"}, [][]interface{}{{int64(1)}})
+	if err != nil {
+		return nil, err
+	}
+	if more {
+		status |= mysql.ServerMoreResultsExists
+	}
+	return &mysql.Result{Status: status, Resultset: rs}, nil
 }
 
 // ---------------------------------------------------------------- rig
